@@ -29,23 +29,25 @@ theorem progRunX_hands_post_weights (cfg : Cfg K) (p : ProgX K) (path : List Nat
     (sd : StratData K) (kids : List (Node K)) (sel : Option (List Nat)) (ws0 : List (Nat × K))
     (hg : p.gate.getD d false = true) (hn : w.root.get? path = some (.strat sd kids))
     (hs : selSteps (tableOf p.ucols kids d) d p.sels none = .ok (some sel))
-    (hw : weigherOut p.wgh sel = some ws0) :
+    (hw : weigherX p d sel = .ok (some ws0)) :
     progRunX cfg p path d w =
       (postSteps cfg path p.post (w, ws0)).bind fun s => algoRebalance cfg s.1 path s.2 p.cash none :=
-  progRunX_unfold hg hn hs hw
+  progRunX_unfoldX hg hn hs hw
 
-/-- … so a successful day factors through the weights handed over; the world `Rebalance` starts on is the day's world
-    or its refresh (the refreshing getter `LimitDeltas` reads the children's weights through) -/
+/-- … so a successful day factors through the weights handed over; without a `CloseDead` among the post steps the world
+    `Rebalance` starts on is the day's world or its refresh (the refreshing getter `LimitDeltas` reads the children's weights
+    through) -/
 theorem progRunX_ok_factors (cfg : Cfg K) (p : ProgX K) (path : List Nat) (d : Nat) (w w' : World K)
     (sd : StratData K) (kids : List (Node K)) (sel : Option (List Nat)) (ws0 : List (Nat × K))
     (hg : p.gate.getD d false = true) (hn : w.root.get? path = some (.strat sd kids))
     (hs : selSteps (tableOf p.ucols kids d) d p.sels none = .ok (some sel))
-    (hw : weigherOut p.wgh sel = some ws0) (h : progRunX cfg p path d w = .ok w') :
+    (hw : weigherX p d sel = .ok (some ws0)) (hnc : ∀ st ∈ p.post, WStep.isClose st = false)
+    (h : progRunX cfg p path d w = .ok w') :
     ∃ w1 ws, postSteps cfg path p.post (w, ws0) = .ok (w1, ws) ∧ (w1 = w ∨ refresh cfg w = .ok w1) ∧
       algoRebalance cfg w1 path ws p.cash none = .ok w' := by
-  rw [progRunX_unfold hg hn hs hw] at h
+  rw [progRunX_unfoldX hg hn hs hw] at h
   obtain ⟨⟨w1, ws⟩, h1, h2⟩ := bind_eq_ok h
-  exact ⟨w1, ws, h1, postSteps_world _ h1, h2⟩
+  exact ⟨w1, ws, h1, postSteps_world _ hnc h1, h2⟩
 
 /-- the post steps in stack order: nothing for `[]`, first step then the rest -/
 theorem post_order (cfg : Cfg K) (path : List Nat) (st : WStep K) (rest : List (WStep K)) (s : World K × List (Nat × K)) :
@@ -195,7 +197,7 @@ theorem progWL_post (w : World Rat) :
     are the capped and halved ones; a whole backtest over that row ends with exactly these weights in the children -/
 example : ∃ sd kids sel, progWL.gate.getD 1 false = true ∧ wXA.root.get? [] = some (.strat sd kids) ∧
     selSteps (tableOf progWL.ucols kids 1) 1 progWL.sels none = .ok (some sel) ∧
-    weigherOut progWL.wgh sel = some wsW ∧
+    weigherX progWL 1 sel = .ok (some wsW) ∧
     progRunX cfgE progWL [] 1 wXA = algoRebalance cfgE wXA [] [(0, 1/4), (1, 1/6), (2, 1/12)] none none ∧
     (btRun cfgE (treeRunG gtreeWL []) 1000 [0, 1] wXA).toOption.map rootWeights =
       some [(0, 1/4), (1, 1/6), (2, 1/12)] := by
